@@ -7,7 +7,7 @@
 From Coq Require Import ZArith List String Bool Reals.
 From Hexital Require Import Base.Prelude Base.Num Model.Manager Model.Candle Model.Readings Model.Engine
   Inst.RealInst Inst.ZInst Inst.FloatInst Spec.Steppers Proofs.SpecReal
-  Proofs.EngineProofs Proofs.CausalProofs Proofs.CounterProofs Proofs.IntLawsInst Proofs.ThresProofs.
+  Model.Analysis Proofs.EngineProofs Proofs.CausalProofs Proofs.CounterProofs Proofs.IntLawsInst Proofs.ThresProofs Proofs.ExtremeProofs.
 Import ListNotations.
 Local Open Scope R_scope.
 
@@ -84,3 +84,23 @@ Proof.
   - intros s x px Hs Hx Hp. eapply thres_flag; eassumption.
 Qed.
 Print Assumptions C05_threshold_flag.
+
+(* Donchian channel and Highest/Lowest are built from movement.highest / lowest over the
+   window (clean_readings: the number-like readings of the `length`+1 candles ending at the
+   index, clamped at candle 0): over the reals the value returned is an element of that window
+   and bounds every element of it *)
+Theorem C05_highest_is_window_max :
+  forall (cs : list (cd (payload ROps))) (name : string) (length index : Z) (v : val ROps),
+  mv_highest ROps cs name length index = Ok v -> v <> VNone -> v <> VBool false ->
+  exists i rs, absindex index (zlen cs) = Some i /\ clean_readings ROps cs name length i true = Ok rs /\
+    In v rs /\ forall y, In y rs -> num_of ROps y <= num_of ROps v.
+Proof. exact highest_is_window_max. Qed.
+Print Assumptions C05_highest_is_window_max.
+
+Theorem C05_lowest_is_window_min :
+  forall (cs : list (cd (payload ROps))) (name : string) (length index : Z) (v : val ROps),
+  mv_lowest ROps cs name length index = Ok v -> v <> VNone -> v <> VBool false ->
+  exists i rs, absindex index (zlen cs) = Some i /\ clean_readings ROps cs name length i true = Ok rs /\
+    In v rs /\ forall y, In y rs -> num_of ROps v <= num_of ROps y.
+Proof. exact lowest_is_window_min. Qed.
+Print Assumptions C05_lowest_is_window_min.
